@@ -53,7 +53,7 @@ def product_stage(prop, name, module, base_cfg, overrides, replayer="replay_pars
     odir = os.path.join(OUT, prop, name)
     shutil.rmtree(odir, ignore_errors=True)
     os.makedirs(odir)
-    cfg = os.path.join(SPEC, "_%s_%s.cfg" % (prop, name))
+    cfg = os.path.join(SPEC, "_%s_%s_%d.cfg" % (prop, name, os.getpid()))
     ov = dict(overrides); ov["EmitOn"] = "TRUE"
     vlib.mk_cfg(cfg, os.path.join(SPEC, base_cfg), ov)
     meta = tempfile.mkdtemp(prefix="tlc-", dir=odir)
@@ -79,9 +79,9 @@ def product_stage(prop, name, module, base_cfg, overrides, replayer="replay_pars
     res = {"stage": name, "kind": "spec->code replay", "module": module, "constants": overrides,
            "states": tl["distinct"], "transitions": tl["states"], "depth": tl["depth"],
            "behaviours_replayed": summ["behaviours"], "calls": summ["calls"],
-           "expected_fields_compared": summ["expected_fields_compared"],
+           "expected_fields_compared": summ["expected_fields_compared"], "reuse_probes": summ.get("reuse_probes", 0),
            "violations": nviol, "known": nknown, "other_property_notes": summ["violations_other"],
-           "drift": {"ret": summ["drift_ret"], "used": summ["drift_used"], "abandoned": summ["abandoned_by_drift"]},
+           "drift": {"ret": summ["drift_ret"], "used": summ["drift_used"], "obs": summ.get("drift_obs", 0), "abandoned": summ["abandoned_by_drift"]},
            "crashes": summ["crashes"], "hangs": summ["hangs"], "samples": samples, "wall_s": round(time.time() - t0, 1)}
     if tl["violated"]:
         res["model_invariant_violated"] = tl["violated"]
@@ -100,7 +100,7 @@ def finish(prop, tier, stages, t0, assumptions, level="model_checking", extra_co
     samples = []
     for s in stages:
         samples += s.get("samples", [])[:4]
-    drift = any((s.get("drift") or {}).get(k, 0) for s in stages for k in ("ret", "used", "abandoned"))
+    drift = any((s.get("drift") or {}).get(k, 0) for s in stages for k in ("ret", "used", "obs", "abandoned"))
     cov = {"states": max(1, sum(s.get("states", 0) for s in stages)),
            "transitions": max(1, sum(s.get("transitions", 0) for s in stages)),
            "traces_validated_against_impl": sum(s.get("behaviours_replayed", 0) + s.get("traces_validated", 0) for s in stages),
@@ -128,10 +128,29 @@ ASSUME_COMMON = [
     "TLC 1.8.0 explores the bounded model exhaustively (fingerprint collision probability as printed by TLC)",
 ]
 
-# ---------------------------------------------------------------- C06 -------
-NAV_BOUNDS = {
-    "C06": {"quick": dict(MaxNodes=4, MaxNest=3, Vals="ValsInt1", DocNames="NamesAB", LookNames="LookAB", Ops="OpsNav", Roots="RootsOA"),
-            "thorough": dict(MaxNodes=6, MaxNest=4, Vals="ValsInt1", DocNames="NamesAB", LookNames="LookAB", Ops="OpsNav", Roots="RootsOA")},
+# ------------------------------------------------- MC_Nav based checks -------
+# stage name -> constants of MC_Nav.  Every stage explores ALL documents the builder can
+# produce within the bound and the complete graph of the enabled calls.
+def _nav(MaxNodes, MaxNest, Vals, DocNames, LookNames, Ops, Roots, ParserMaxD=4):
+    return dict(MaxNodes=MaxNodes, MaxNest=MaxNest, Vals=Vals, DocNames=DocNames, LookNames=LookNames,
+                Ops=Ops, Roots=Roots, ParserMaxD=ParserMaxD)
+
+NAV_STAGES = {
+    "C06": {"quick":    [("nav", _nav(4, 3, "ValsInt1", "NamesAB", "LookAB", "OpsNavE", "RootsOA"))],
+            "thorough": [("nav", _nav(6, 4, "ValsInt1", "NamesAB", "LookAB", "OpsNavE", "RootsOA")),
+                         ("nav-mixed-values", _nav(4, 3, "ValsMix", "NamesAB", "LookAB", "OpsNavE", "RootsOA"))]},
+    "C03": {"quick":    [("values-names", _nav(2, 2, "ValsAll", "NamesRich", "LookAB", "OpsNav", "RootsOA")),
+                         ("values-3", _nav(3, 2, "ValsAll", "NamesAB", "LookAB", "OpsWalk", "RootsOA"))],
+            "thorough": [("values-names", _nav(3, 3, "ValsAll", "NamesRich", "LookAB", "OpsWalk", "RootsOA")),
+                         ("values-nest", _nav(3, 3, "ValsAll", "NamesAB", "LookAB", "OpsNav", "RootsOA"))]},
+    "C07": {"quick":    [("lookup-structure", _nav(4, 3, "ValsInt1", "NamesAB", "LookAB", "OpsLook", "RootsOA")),
+                         ("lookup-names", _nav(3, 2, "ValsInt1", "NamesRich", "LookRich", "OpsLook", "RootsO"))],
+            "thorough": [("lookup-structure", _nav(5, 3, "ValsInt1", "NamesAB", "LookAB", "OpsLook", "RootsOA")),
+                         ("lookup-names", _nav(3, 3, "ValsMix", "NamesRich", "LookRich", "OpsLook", "RootsO")),
+                         ("lookup-raw", _nav(4, 3, "ValsInt1", "NamesAB", "LookAB", "OpsAll", "RootsOA"))]},
+    "C11": {"quick":    [("raw", _nav(4, 3, "ValsInt1", "NamesAB", "LookAB", "OpsNav", "RootsOA"))],
+            "thorough": [("raw", _nav(6, 4, "ValsInt1", "NamesAB", "LookAB", "OpsNav", "RootsOA")),
+                         ("raw-lookup", _nav(4, 3, "ValsMix", "NamesAB", "LookAB", "OpsAll", "RootsOA"))]},
 }
 
 
@@ -139,9 +158,62 @@ def check_nav(prop, tier, replay):
     if replay:
         return replay_file(prop, replay)
     t0 = time.time()
-    b = dict(NAV_BOUNDS[prop][tier]); b["ParserMaxD"] = 4
-    stages = [product_stage(prop, "nav", "MC_Nav.tla", "MC_Nav.cfg", b)]
+    stages = [product_stage(prop, name, "MC_Nav.tla", "MC_Nav.cfg", consts) for name, consts in NAV_STAGES[prop][tier]]
     return finish(prop, tier, stages, t0, ASSUME_COMMON)
 
 
-REGISTRY["C06"] = check_nav
+for _p in NAV_STAGES:
+    REGISTRY[_p] = check_nav
+
+
+# ---------------------------------------------------------------- C08 -------
+STREAM_STAGES = {
+    "quick":    [("stream-k3", dict(K=3, MaxD=2, Sigma="SigmaS", Names="NamesS", Roots="RootsOA")),
+                 ("stream-k2-large-alphabet", dict(K=2, MaxD=1, Sigma="SigmaL", Names="NamesS", Roots="RootsOA"))],
+    "thorough": [("stream-k4", dict(K=4, MaxD=2, Sigma="SigmaS", Names="NamesS", Roots="RootsOA")),
+                 ("stream-k3-large-alphabet", dict(K=3, MaxD=3, Sigma="SigmaL", Names="NamesS", Roots="RootsOA"))],
+}
+
+
+def check_stream(prop, tier, replay):
+    if replay:
+        return replay_file(prop, replay)
+    t0 = time.time()
+    stages = [product_stage(prop, name, "MC_Stream.tla", "MC_Stream.cfg", c) for name, c in STREAM_STAGES[tier]]
+    return finish(prop, tier, stages, t0, ASSUME_COMMON)
+
+
+REGISTRY["C08"] = check_stream
+
+
+# ------------------------------------------------ MC_Safety based checks -------
+def _saf(K, MaxCalls, MaxDs, Sigma, Fills, Names="NamesH"):
+    return dict(K=K, MaxCalls=MaxCalls, MaxDs=MaxDs, Sigma=Sigma, Names=Names, Fills=Fills)
+
+SAFETY_STAGES = {
+    "quick":    [("hostile-tokens", _saf(2, 3, "MaxDs12", "SigmaTok", "FillsQ")),
+                 ("hostile-bytes", _saf(2, 2, "MaxDs12", "SigmaByte", "FillsQ")),
+                 ("hostile-bytes-3", _saf(3, 1, "MaxDs2", "SigmaByte", "FillsTwo"))],
+    "thorough": [("hostile-tokens", _saf(3, 3, "MaxDs123", "SigmaTok", "FillsAll")),
+                 ("hostile-bytes", _saf(3, 2, "MaxDs12", "SigmaByte", "FillsQ")),
+                 ("hostile-bytes-4", _saf(4, 1, "MaxDs12", "SigmaByte", "FillsQ")),
+                 ("hostile-deep", _saf(2, 4, "MaxDs12", "SigmaTok", "FillsQ"))],
+}
+EXTRA_STAGES = {
+    "C12": {"quick": [("reuse-nav", "MC_Nav.tla", "MC_Nav.cfg", _nav(4, 3, "ValsInt1", "NamesAB", "LookAB", "OpsReuse", "RootsOA"))],
+            "thorough": [("reuse-nav", "MC_Nav.tla", "MC_Nav.cfg", _nav(5, 3, "ValsMix", "NamesAB", "LookAB", "OpsReuse", "RootsOA"))]},
+}
+
+
+def check_safety(prop, tier, replay):
+    if replay:
+        return replay_file(prop, replay)
+    t0 = time.time()
+    stages = [product_stage(prop, name, "MC_Safety.tla", "MC_Safety.cfg", c) for name, c in SAFETY_STAGES[tier]]
+    for name, mod, cfg, c in EXTRA_STAGES.get(prop, {}).get(tier, []):
+        stages.append(product_stage(prop, name, mod, cfg, c))
+    return finish(prop, tier, stages, t0, ASSUME_COMMON)
+
+
+for _p in ("C01", "C09", "C12", "C16"):
+    REGISTRY[_p] = check_safety
